@@ -270,9 +270,12 @@ def parse(s):
 SMART_PTRS = {"intrusive_ptr", "unique_ptr", "shared_ptr", "weak_ptr"}
 SEQS = {"vector", "deque", "list"}
 SEQ_ITERS = {"__normal_iterator", "_Deque_iterator", "_List_iterator", "_List_const_iterator"}
+# iterators of the map/set models: pointer to the entry (pair) / key
+ASSOC_ITERS = {"_Rb_tree_iterator", "_Rb_tree_const_iterator", "_Node_iterator", "_Node_const_iterator",
+               "_Node_iterator_base"}
 INT_TYPEDEFS = {
     "size_t": "size_t", "std::size_t": "size_t", "ssize_t": "long", "ptrdiff_t": "long", "std::ptrdiff_t": "long",
-    "aid_t": "long", "sg_size_t": "unsigned long", "sg_offset_t": "long",
+    "aid_t": "long", "sg_size_t": "unsigned long long", "sg_offset_t": "long long",
     "uint8_t": "unsigned char", "int8_t": "signed char", "uint16_t": "unsigned short", "int16_t": "short",
     "uint32_t": "unsigned int", "int32_t": "int", "uint64_t": "unsigned long", "int64_t": "long",
     "uintptr_t": "unsigned long", "intptr_t": "long", "std::uint32_t": "unsigned int", "std::uint64_t": "unsigned long",
@@ -421,11 +424,16 @@ class TypeMap:
             tg = self.tag(e)
             self.seq_insts.setdefault(tg, e)
             return "struct vf_seq_" + tg
+        if last == "reverse_iterator" and t.args and "::" not in name.replace("std::", "", 1):
+            # std::reverse_iterator<It>: the value of its base() iterator; *r is *(base-1), ++r is --base (libmap)
+            return self.c(t.args[0])
         if last in SEQ_ITERS and t.args:
             a0 = t.args[0]
             if last == "__normal_iterator":
                 return self.c(a0)  # already T*
             return self.c(a0) + "*"
+        if last in ASSOC_ITERS and t.args:
+            return self.c(t.args[0]) + "*"
         if last in ("iterator", "const_iterator", "reverse_iterator", "const_reverse_iterator") and "::" in name:
             # std::vector<T>::iterator printed unsugared
             m = re.match(r"(.*)<(.*)>::(const_)?iterator$", name)
@@ -488,6 +496,12 @@ class TypeMap:
         if not t.args and re.fullmatch(r"[A-Z]\w*Ptr", last) and last not in self.class_alias:
             # SimGrid convention: XxxPtr = boost::intrusive_ptr<Xxx>
             return self.c(T("named", name=name[:-3])) + "*"
+        if last in ("value_type", "reference", "pointer") and "<" in name:
+            # member types of the map/set iterators: the entry type (first template argument) / pointer to it
+            m = re.match(r"(?:.*?::)?([A-Za-z_]\w*)<(.*)>::(value_type|reference|pointer)$", name)
+            if m and m.group(1) in ASSOC_ITERS:
+                inner = self.c(parse(first_targ(m.group(2))))
+                return inner + ("*" if m.group(3) != "value_type" else "")
         if last in ("reference", "const_reference", "value_type", "_Self", "pointer", "mapped_type", "key_type"):
             raise Unsupported("dependent member type %s (no desugared form)" % name)
         # class type
